@@ -333,6 +333,7 @@ func (vc *VC) stringConst(s string, t types.Type) *SV {
 		return &SV{T: t, C: []string{bvLit(refBits, 0), bvLit(64, 0), bvLit(64, 0)}}
 	}
 	id := vc.eng.globalID("str:" + s)
+	strKeyIDs[id] = true
 	ref := bvLit(refBits, int64(id))
 	if !vc.eng.declared(vc, fmt.Sprintf("strconst:%d", id)) && len(s) <= 64 && vc.entryH8 != "" {
 		for i := 0; i < len(s); i++ {
